@@ -6,11 +6,12 @@ import (
 	"os"
 	"path/filepath"
 	"strings"
+	"sync"
 )
 
 const (
-	modPath   = "github.com/celestiaorg/go-header"
-	zzPkgPath = modPath + "/internal/zzverif"
+	modPath    = "github.com/celestiaorg/go-header"
+	zzPkgPath  = modPath + "/internal/zzverif"
 	hdrPkgPath = modPath + "/internal/zzhdr"
 )
 
@@ -32,6 +33,15 @@ type Spec struct {
 type Stub struct {
 	File string `json:"file"` // repo-relative
 	Func string `json:"func"` // top-level function (or "Recv.Method") renamed to zzorig_<Func>; the harness file defines the replacement
+}
+
+// Yield is an overlay-only scheduling point: a zzverif.Gate(label) call inserted after the (single) source
+// line containing After. Nothing is written to /repo; the engine and the native replay build see the same
+// overlaid file. If the anchor does not occur exactly once (the code changed) the point is left out.
+type Yield struct {
+	File  string `json:"file"`  // repo-relative
+	After string `json:"after"` // text of one complete statement line
+	Label string `json:"label"`
 }
 
 type Canary struct {
@@ -56,8 +66,8 @@ type TierCfg struct {
 
 type Unit struct {
 	Name     string              `json:"name"`
-	Pkg      string              `json:"pkg"`   // import path relative to the module ("" = root, "sync", "store", "p2p")
-	Files    []string            `json:"files"` // harness sources under props/<ID>/
+	Pkg      string              `json:"pkg"`    // import path relative to the module ("" = root, "sync", "store", "p2p")
+	Files    []string            `json:"files"`  // harness sources under props/<ID>/
 	Shared   []string            `json:"shared"` // shared harness sources under /verif/zz/shared/ (copied into the package)
 	UseHdr   bool                `json:"use_hdr"`
 	Harness  string              `json:"harness"`
@@ -66,11 +76,12 @@ type Unit struct {
 	Level    string              `json:"level"` // overrides Spec.Level for the obligations of this unit
 	Labels   []string            `json:"labels"`
 	Stubs    []Stub              `json:"stubs"`
+	Yields   []Yield             `json:"yields"`
 	Canaries []Canary            `json:"canaries"`
 	Tiers    map[string]*TierCfg `json:"tiers"`
 	Bounds   map[string]string   `json:"bounds"` // free-text description of each bound, per tier or common
 	NoReplay bool                `json:"no_replay"`
-	Clock    string              `json:"clock"` // "concrete": the clock starts at a fixed instant (units whose property does not depend on time)
+	Clock    string              `json:"clock"`     // "concrete": the clock starts at a fixed instant (units whose property does not depend on time)
 	InitPkgs []string            `json:"init_pkgs"` // extra packages whose init must be interpreted
 }
 
@@ -160,6 +171,34 @@ func overlayFor(u *Unit, propDir string, native bool, mutate *Canary) (map[strin
 		}
 		ov[p] = []byte(out)
 	}
+	for _, y := range u.Yields {
+		p := filepath.Join(repoDir, y.File)
+		src, ok := ov[p]
+		if !ok {
+			b, err := os.ReadFile(p)
+			if err != nil {
+				return nil, err
+			}
+			src = b
+		}
+		text := string(src)
+		if strings.Count(text, y.After) != 1 || !strings.Contains(text, "\nimport (\n") {
+			yieldsMu.Lock()
+			yieldsSkipped[u.Name+":"+y.Label] = true
+			yieldsMu.Unlock()
+			continue
+		}
+		i := strings.Index(text, y.After)
+		j := i + len(y.After)
+		for j < len(text) && text[j] != '\n' {
+			j++
+		}
+		text = text[:j] + "\n\tzzyield.Gate(" + fmt.Sprintf("%q", y.Label) + ")" + text[j:]
+		if !strings.Contains(text, "zzyield \"") {
+			text = strings.Replace(text, "\nimport (\n", "\nimport (\n\tzzyield \""+zzPkgPath+"\"\n", 1)
+		}
+		ov[p] = []byte(text)
+	}
 	if mutate != nil {
 		p := filepath.Join(repoDir, mutate.File)
 		src, ok := ov[p]
@@ -177,6 +216,10 @@ func overlayFor(u *Unit, propDir string, native bool, mutate *Canary) (map[strin
 	}
 	return ov, nil
 }
+
+// yieldsSkipped records overlay scheduling points whose anchor no longer matches (reported in the evidence).
+var yieldsSkipped = map[string]bool{}
+var yieldsMu sync.Mutex
 
 var errCanaryNoMatch = fmt.Errorf("canary pattern not found")
 
